@@ -509,6 +509,40 @@ def r10_not_found_iff_unbound(ctx):
     c13.r5_not_found_iff_unbound(ctx, "C01.R10")
 
 
+def r11_no_borrowed_wire_strings(ctx):
+    """a request spelled with JSON escapes (e.g. "jsonrpc":"2\\u002e0") is the same request: no wire type deserialises a
+    member as a borrowed &str / &[u8] (= C15.R7)"""
+    from . import c15
+    n = c15._borrowed_str_scan(ctx.F, ctx.R, r"^<?jsonrpsee_(types|core)::", "C01.R11")
+    ctx.R.ok("C01.R11", "no-borrowed-str", "%d deserialisation sites inspected" % n)
+    ctx.R.floor("C01.R11", n, 40, "deserialisation sites in types/core")
+
+
+def r12_entry_points_agree(ctx):
+    """the same message gets the same answer whichever way the server was assembled and over both transports: the
+    high-level server and the low-level ws::connect / http::call_with_service_builder feed the shared machinery from the
+    same settings (= C07.SIB)"""
+    from .common import sibling_config_agreement
+    from . import c07
+    sibling_config_agreement(ctx, "C01.R12", c07.SIBLINGS, 6)
+
+
+def _borrowed(modname, fname):
+    """a rule of a neighbouring property whose violation also violates this one; it reports under its own rule id"""
+    def run(ctx):
+        import importlib
+        mod = importlib.import_module("jrsa.rules." + modname)
+        return getattr(mod, fname)(ctx)
+    run.__name__ = "%s_%s" % (modname, fname)
+    return run
+
+
+# "answered with the handler's result for exactly those params, or -32602": the params decoders (C16); "the standard error of
+# its failure class" and "exactly one well-formed response object (jsonrpc, id, exactly one of result/error)": the code
+# tables and the response serialiser (C15)
+BORROWED = [_borrowed("c16", n) for n in ("r1_only_invalid_params", "r2_poison_on_error", "r3_exhaustion_table", "r4_absent_params", "rown_into_owned", "rnext_reads_T", "rone_is_one_array_parse")] + [_borrowed("c15", n) for n in ("r1_code_tables", "r2_serializer")]
+
+
 DESER_CTOR = r"^serde_json::Deserializer::<.*>::(from_slice|from_str|from_reader|new)$|^serde_json::de::Deserializer::<.*>::(from_slice|from_str|from_reader|new)$"
 DESER_END = r"^serde_json::(de::)?Deserializer::<.*>::end$"
 WRAPPERS = r"^jsonrpsee_server::utils::deserialize_with_ext::(call|notif)::(from_slice|from_str)$"
@@ -583,7 +617,7 @@ def control_hand_driven(ctx):
 CONTROLS = [control_hand_driven]
 
 
-RULES = [r1_id_echo, r1b_handler_args, r2_classify_once, r3_ws_reply_once, r4_invocation_authority, r5_failure_classes, r6_transport_agreement, r7_whole_message, r8_classifiers_are_plain, r9_params_whitespace, r10_not_found_iff_unbound]
+RULES = [r1_id_echo, r1b_handler_args, r2_classify_once, r3_ws_reply_once, r4_invocation_authority, r5_failure_classes, r6_transport_agreement, r7_whole_message, r8_classifiers_are_plain, r9_params_whitespace, r10_not_found_iff_unbound, r11_no_borrowed_wire_strings, r12_entry_points_agree] + BORROWED
 
 LEVEL_TEXT = (
     "Structural necessary conditions of the request/reply contract decided from the type-checked program for every "
